@@ -1146,6 +1146,8 @@ class Explorer:
             return outs
         if isinstance(node, ast.UnaryOp) and isinstance(node.op, ast.Not):
             return [((not b) if b is not RAISE else RAISE, s) for b, s in self.cond(node.operand, st)]
+        if isinstance(node, ast.Call) and isinstance(node.func, ast.Name) and node.func.id == 'bool' and len(node.args) == 1 and not node.keywords:
+            return self.cond(node.args[0], st)          # the truth of bool(e) is the truth of e
         if isinstance(node, ast.Name) and st.env.get(node.id, ('?',))[0] in ('locallist', 'tokenlist') and node.id in st.locallen:
             # truth of a local list is `len(list) > 0`
             test = ast.copy_location(ast.Compare(left=ast.Call(func=ast.Name(id='len', ctx=ast.Load()), args=[ast.Name(id=node.id, ctx=ast.Load())], keywords=[]),
@@ -1467,7 +1469,10 @@ class Explorer:
             key = ast.unparse(n.test)
             st.facts[key] = True
             atoms = self.atoms_of(n.test, True, st)
-            self.emit(st, 'assert', n, text=key, node=n, atoms=atoms)
+            operands = None
+            if isinstance(n.test, ast.Compare) and len(n.test.ops) == 1:
+                operands = (type(n.test.ops[0]).__name__, self.pure_value(n.test.left, st), self.pure_value(n.test.comparators[0], st))
+            self.emit(st, 'assert', n, text=key, node=n, atoms=atoms, operands=operands)
             return [(st, 'normal')]
         if isinstance(n, ast.Delete):
             for t in n.targets:
